@@ -833,3 +833,196 @@ func describeBound(p *Program, v ssa.Value) string {
 	}
 	return v.Name()
 }
+
+// checkStatesHandedOn (R06.9): every way out of a stateful kernel hands the states on. For each return statement
+// and each state result, the value returned depends on a state argument (through the carried variable, a delegate's
+// result, …). A return that yields a constant for a state — a shortcut written before the state argument was copied
+// into the result variable — restarts the model from nothing at the next call. Returns taken because an `error` value
+// is non-nil are exempt (a configuration the model refuses behaves alike in split and unsplit runs).
+func checkStatesHandedOn(p *Program, r *Report, models []*Model) {
+	r.Rule("R06.9", "every way out hands the states on: on every return statement of a stateful kernel (other than one guarded by `err != nil` on an error value), the value returned for each state depends on some state argument, or that state's argument has been consumed by something that always happens on the way to the return — a shortcut that returns a constant for a state, without having touched the state argument, drops what the model had stored")
+	n := 0
+	for _, m := range models {
+		k := m.Kernel
+		if k == nil || len(m.States) == 0 {
+			continue
+		}
+		key := m.RelPkg + "." + k.Name()
+		states := map[ssa.Value]bool{}
+		for i := range m.States {
+			if len(m.Inputs)+i < len(k.Params) {
+				states[k.Params[len(m.Inputs)+i]] = true
+			}
+		}
+		base := 0
+		if !m.OutputsAsParams {
+			base = len(m.Outputs)
+		}
+		for ri, ret := range returnsOf(k) {
+			errPath := false
+			for _, g := range guardsAt(ret.Block()) {
+				bo, ok := g.Cond.(*ssa.BinOp)
+				if !ok {
+					continue
+				}
+				for _, side := range [][2]ssa.Value{{bo.X, bo.Y}, {bo.Y, bo.X}} {
+					if isNilConst(side[1]) && types.Identical(side[0].Type(), types.Universe.Lookup("error").Type()) {
+						if bo.Op == token.NEQ && g.Val || bo.Op == token.EQL && !g.Val {
+							errPath = true
+						}
+					}
+				}
+			}
+			if errPath {
+				continue
+			}
+			for si := range m.States {
+				if base+si >= len(ret.Results) {
+					continue
+				}
+				n++
+				v := ret.Results[base+si]
+				dep := dependsOn(v, func(x ssa.Value) bool { return states[x] }, map[ssa.Value]bool{})
+				if !dep && len(k.Params) > len(m.Inputs)+si {
+					// the state may have been handed on otherwise before this return: consumed by something that
+					// always happens on the way here (trap-all adds its stored mass to the first output and returns 0)
+					for _, ref := range refs(k.Params[len(m.Inputs)+si]) {
+						if _, dbg := ref.(*ssa.DebugRef); dbg {
+							continue
+						}
+						if ref.Block() != nil && ref.Block().Dominates(ret.Block()) {
+							dep = true
+						}
+					}
+				}
+				if dep {
+					r.OK("R06.9", fmt.Sprintf("%s: return %d hands state `%s` on", key, ri+1, m.States[si]))
+				} else {
+					r.Fail("R06.9", fmt.Sprintf("%s:return#%d:%s", key, ri+1, m.States[si]), p.Pos(ret.Pos()), fmt.Sprintf("on this way out of %s the value returned for state `%s` does not depend on any state argument (it is %s): whatever the model had stored is dropped, and the next call starts from that constant", k.Name(), m.States[si], v.String()))
+				}
+			}
+		}
+	}
+	r.Floor("R06.9", "state results on return statements", n, 20)
+}
+
+// checkCarriedStructFields (R06.1/R06.2 for scalars kept in a local struct): a float field of a struct variable that
+// lives across the time loop, and that the loop both writes and reads — directly or through methods handed the
+// variable's address — is a carried value like a loop-header phi: its value on entering the loop must derive from a
+// state argument, and its final value must be returned as state.
+func checkCarriedStructFields(p *Program, r *Report, k *ssa.Function, key string, l *Loop, stateParams map[ssa.Value]string) {
+	isState := func(x ssa.Value) bool { _, ok := stateParams[x]; return ok }
+	eachInstr(k, func(blk *ssa.BasicBlock, _ int, ins ssa.Instruction) {
+		a, ok := ins.(*ssa.Alloc)
+		if !ok || l.Blocks[blk] {
+			return
+		}
+		st, ok := a.Type().Underlying().(*types.Pointer).Elem().Underlying().(*types.Struct)
+		if !ok {
+			return
+		}
+		for fi := 0; fi < st.NumFields(); fi++ {
+			if b, ok := st.Field(fi).Type().Underlying().(*types.Basic); !ok || b.Info()&types.IsFloat == 0 {
+				continue
+			}
+			wIn, rIn, calleeWrites := false, false, false
+			var directStores []*ssa.Store
+			var loads []ssa.Instruction
+			for lb := range l.Blocks {
+				for _, i2 := range lb.Instrs {
+					switch x := i2.(type) {
+					case *ssa.Store:
+						if fa, ok := x.Addr.(*ssa.FieldAddr); ok && fa.X == ssa.Value(a) && fa.Field == fi {
+							wIn = true
+							directStores = append(directStores, x)
+						}
+					case *ssa.UnOp:
+						if fa, ok := x.X.(*ssa.FieldAddr); ok && x.Op == token.MUL && fa.X == ssa.Value(a) && fa.Field == fi {
+							rIn = true
+							loads = append(loads, x)
+						}
+					case ssa.CallInstruction:
+						h := x.Common().StaticCallee()
+						if h == nil || h.Blocks == nil || !InModule(h) {
+							continue
+						}
+						for ai, arg := range x.Common().Args {
+							if ai >= len(h.Params) {
+								break
+							}
+							switch {
+							case stripConv(arg) == ssa.Value(a): // &state handed to a method
+								if fieldWrittenBy(h, ai, fi, 0) {
+									wIn, calleeWrites = true, true
+								}
+								if usesField(h, ai, fi, 0) {
+									rIn = true
+									loads = append(loads, x)
+								}
+							default: // a copy of the struct (value receiver): read only
+								if u, ok := arg.(*ssa.UnOp); ok && u.Op == token.MUL && u.X == ssa.Value(a) && usesField(h, ai, fi, 0) {
+									rIn = true
+									loads = append(loads, x)
+								}
+							}
+						}
+					}
+				}
+			}
+			if !wIn || !rIn {
+				continue
+			}
+			// scratch: written in the kernel itself at the top of every iteration before any use
+			if !calleeWrites {
+				scratch := true
+				for _, ld := range loads {
+					dom := false
+					for _, s := range directStores {
+						if instrDominates(s, ld) {
+							dom = true
+						}
+					}
+					if !dom {
+						scratch = false
+					}
+				}
+				if scratch {
+					continue
+				}
+			}
+			name := a.Comment + "." + st.Field(fi).Name()
+			ckey := fmt.Sprintf("%s:field:%s", key, name)
+			// value on entering the loop
+			vals, ok := reachingFieldStores(a, fi, l.Header.Instrs[0], 0)
+			fromState := ok && len(vals) > 0
+			for _, v := range vals {
+				if v == nil || !dependsOn(v, isState, map[ssa.Value]bool{}) {
+					fromState = false
+				}
+			}
+			if fromState {
+				r.OK("R06.1", fmt.Sprintf("%s: carried field `%s` starts from a state argument", key, name))
+			} else {
+				r.Fail("R06.1", ckey, p.Pos(a.Pos()), fmt.Sprintf("field `%s` of a struct that lives across the time loop is written in one timestep and read in a later one, but its value on entering the loop does not derive from a state argument: after a split it restarts from that value", name))
+			}
+			// final value returned as state
+			returned := false
+			for _, ret := range returnsOf(k) {
+				for _, rv := range ret.Results {
+					for _, o := range origins(rv) {
+						if u, ok := o.(*ssa.UnOp); ok && u.Op == token.MUL {
+							if fa, ok := u.X.(*ssa.FieldAddr); ok && fa.X == ssa.Value(a) && fa.Field == fi && !l.Blocks[u.Block()] {
+								returned = true
+							}
+						}
+					}
+				}
+			}
+			if returned {
+				r.OK("R06.2", fmt.Sprintf("%s: carried field `%s` is returned as state", key, name))
+			} else if len(stateParams) > 0 {
+				r.Fail("R06.2", ckey, p.Pos(a.Pos()), fmt.Sprintf("field `%s` is carried between timesteps but its final value is not returned as state: the next segment cannot resume from it", name))
+			}
+		}
+	})
+}
